@@ -44,6 +44,8 @@ class Job:
             self.cmd += ["--canary", canary]
         if not ob.twin:
             self.cmd += ["--no-twin"]
+        if ob.kind == "e2":
+            self.cmd += ["--e2"]
         self.hard = ob.timeout + (0 if canary or not ob.twin else 45) + 90
         self.proc = None
         self.t0 = 0.0
@@ -137,7 +139,7 @@ def main() -> int:  # noqa: C901, PLR0912, PLR0915
             gen = os.path.join(root, f"gen_{a.prop}.py")
             with open(gen, "w") as f:
                 f.write(generate_source(hm, obs))
-            r = replay(gen, rp["obligation"], rp["args"], root, env)
+            r = replay(gen, rp["obligation"] + ("__replay" if obs[0].kind == "e2" else ""), rp["args"], root, env)
             print(json.dumps(r, indent=1))
             return 1 if r.get("outcome") in ("false", "raised") else 0
 
@@ -186,7 +188,7 @@ def main() -> int:  # noqa: C901, PLR0912, PLR0915
                 if tw.get("ce"):
                     row["twin_model"] = tw["ce"]
             if m["state"] == "CONFIRMED":
-                if not ob.twin:
+                if not ob.twin or ob.kind == "e2":
                     row["verdict"] = "discharged"
                 elif tw and tw["state"] in REFUTED:
                     row["verdict"] = "discharged"
@@ -206,7 +208,7 @@ def main() -> int:  # noqa: C901, PLR0912, PLR0915
                     row["reason"] = "counterexample arguments not captured: " + m["message"][:200]
                     harness_errors.append(f"{ob.name}: counterexample not captured")
                     continue
-                rr = replay(gen, ob.name, ce, root, env)
+                rr = replay(gen, ob.name + ("__replay" if ob.kind == "e2" else ""), ce, root, env)
                 row["counterexample"] = ce
                 row["replay"] = {k: rr.get(k) for k in ("outcome", "signature", "detail")}
                 if rr.get("outcome") in ("false", "raised"):
